@@ -51,6 +51,15 @@ def check(ctx, rep):
     rep.rule("R08e", ".cap files: Type=X or - hides the file, anything else is merged and the file listed once; unreadable .cap ignored", floor=1)
     rep.rule("R08g", "link-file text: getLinkItem evaluated on scripted blocks gives the documented entry (Path= forms, Host=+/Port=+, Numb, Abstract continuation, comments, .cap)", floor=10)
     rep.rule("R08f", "Host=+ / Port=+ leave host/port unset (this server)", floor=2)
+    rep.rule("R08h", "= R15e: a sidecar .abstract file becomes the entry's abstract line for line (lines end at the line feed only; form feeds and "
+             "other separators inside a line stay where they are): the sidecar reader evaluated on a scripted file", floor=0)
+    from .c15 import _sidecars_by_evaluation
+    ge_ = ctx.cls("gopherentry.GopherEntry")
+    he_ = prog.resolve_method(ge_, "handleeaext") if ge_ else None
+    if he_ is None:
+        rep.fail("R08h", "GopherEntry.handleeaext", detail="sidecar reader not found")
+    elif not _sidecars_by_evaluation(ctx, rep, ge_, he_, rule="R08h"):
+        rep.ok("R08h", "sidecar reader: decided by its shape under C15 (R15e), the evaluation could not follow it", ctx.where(he_), "", key="R08h|shape", nontrivial=False)
     umn = ctx.cls("handlers.UMN.UMNDirHandler")
     ec = prog.resolve_method(umn, "entrycmp") if umn else None
     if ec is None:
